@@ -323,6 +323,7 @@ def stage1_jobs(tier):
     jobs = [
         ("coverage", cfg(nreq=2, full=1, s1="HardS4Scripts", o1="AllOps", emit="FALSE", inv=INVS_S4, maxsize=2), 1, True),
         ("dev:NoProbe", cfg(dev="DevNoProbe", **small), 1, False),
+        ("dev:ProbeEofOnly", cfg(dev="DevProbeEofOnly", **small), 1, False),
         ("dev:RawNotReady", cfg(dev="DevRawNotReady", nreq=2, full=1, emit="FALSE"), 1, False),
         ("dev:NoCloseOnUnclean", cfg(dev="DevNoCloseOnUnclean", inv=INVS_S4, **s4), 1, False),
         ("dev:NoDiscardOnError", cfg(dev="DevNoDiscardOnError", inv=INVS_S4, **s4), 1, False),
@@ -332,7 +333,8 @@ def stage1_jobs(tier):
     return jobs
 
 
-EXPECT_S1 = {"dev:NoProbe": {"OnlyOwnBytes", "UncleanNeverReused"}, "dev:RawNotReady": {"OnlyUrllib3Errors"},
+EXPECT_S1 = {"dev:NoProbe": {"OnlyOwnBytes", "UncleanNeverReused"},
+             "dev:ProbeEofOnly": {"OnlyOwnBytes", "UncleanNeverReused"}, "dev:RawNotReady": {"OnlyUrllib3Errors"},
              "dev:NoCloseOnUnclean": {"OnlyOwnBytesButS4", "UncleanNeverReusedButS4"},
              "dev:NoDiscardOnError": {"OnlyOwnBytesButS4", "UncleanNeverReusedButS4"},
              "s4:as-is": {"OnlyOwnBytes", "UncleanNeverReused"}}
